@@ -30,6 +30,28 @@ CHECKS = {
         note="Trusted: numpy dense algebra; todense()*coeff as the represented object. Sizes: 1-6 sites, dense dimension <= 256.",
         technique="model-based property testing (Hypothesis-generated instruction programs, dense reference model in lock step)",
     ),
+    "C04": dict(
+        category="exploration",
+        text="Generated gauge histories (canonicalise, canonicalise(stop_idx) incl. the current centre, ensure_left/right, "
+             "move_qnidx, lossless compress in three parameter styles, variational compress) applied to states, operators and "
+             "density operators with redundant, rank-deficient and dimension-1 bonds produced by generated arithmetic, on chains of "
+             "1-6 sites; after every step: dense object unchanged, isometry recomputed from the raw arrays, no bond grew, two "
+             "opposite sweeps respect the physical bound, idempotence, compress(ret_s) equals the dense Schmidt spectra.",
+        design_ref="DESIGN.md §4 C04",
+        note="Trusted: numpy SVD / dense algebra. Mpo sites are scaled isometries by the library's documented norm spreading.",
+        technique="model-based property testing (Hypothesis-generated gauge programs) with dense invariants and idempotence/metamorphic relations",
+    ),
+    "C05": dict(
+        category="exploration",
+        text="Generated (state, truncation configuration) pairs: criterion threshold/fixed/both, thresholds in [1e-4,0.8], global or "
+             "per-bond limits 1..8 via config, max_dims list, temp_m_trunc int/list, both sweep directions; oracle = dense SVD spectra "
+             "of the original state at every cut: limit obeyed, norm not increased, Eckart-Young lower bound and "
+             "sequential-projection upper bound on the distance, kept counts / returned singular values / final state equal to a "
+             "dense sequential-SVD replica of the same sweep when no singular value is within 1e-6 of the cut.",
+        design_ref="DESIGN.md §4 C05",
+        note="Trusted: numpy SVD. Chains of 3-7 sites, bond <= 16, dense dimension <= 1024; tree states are covered by C11's compress checks.",
+        technique="property-based testing (Hypothesis) against dense SVD bounds (theorems) and a dense differential replica",
+    ),
     "C19": dict(
         category="exploration",
         text="Complete enumeration of the finite space (10 tableaux x rows x 17 rooted trees of order <=5, row sums, "
